@@ -46,3 +46,8 @@ func proxyEvents(w *classicWorld) *classicEvents {
 	})
 	return ce
 }
+
+// proxyEventsFor subscribes a PreLogin recorder on a bare event manager.
+func proxyEventsFor(ev *simEvent, onPreLogin func(e *proxy.PreLoginEvent)) {
+	event.Subscribe(ev, 0, onPreLogin)
+}
